@@ -1,7 +1,8 @@
 (* Case checker for C11, rune-set part (driver c11set).
    kind 1 = model and implementation differ (correspondence),
-   kind 2 = the implementation's own output violates the specification (oracle),
-   kind 10 = oracle failure matching the known finding F23 (rsIncludes and empty pages left by rsDelete). *)
+   kind 2 = the implementation's own output violates the specification (oracle).
+   (The former kind 10, inclusion after Delete, is repaired in the library: `fix: RuneSet.includes ignores the empty
+   pages left behind by Delete`; any inclusion mismatch is now a plain oracle failure.) *)
 From TV Require Export Model.RuneSet Spec.RuneSet.
 
 Definition pages := list (Z * list Z).
@@ -103,24 +104,13 @@ Definition incl_ok (c : case) : bool :=
       (Bool.eqb iab (l_includes (l_run opsA) (l_run opsB)) && Bool.eqb iba (l_includes (l_run opsB) (l_run opsA)))
   | _ => true
   end.
-(* narrow predicate of the known finding: the included-side set carries an all-zero page *)
-Definition incl_known (c : case) : bool :=
-  match c with
-  | CSet opsA opsB pA pB _ _ _ iab iba _ _ _ _ =>
-      let want_ab := l_includes (l_run opsA) (l_run opsB) in
-      let want_ba := l_includes (l_run opsB) (l_run opsA) in
-      (Bool.eqb iab want_ab || (want_ab && has_empty_page pB))
-      && (Bool.eqb iba want_ba || (want_ba && has_empty_page pA))
-  | _ => false
-  end.
-
 Fixpoint check_from (i : nat) (cs : list case) : list (nat * nat) :=
   match cs with
   | [] => []
   | c :: r =>
       (if corr_ok c then [] else [(i, 1%nat)])
         ++ (if set_ok c then [] else [(i, 2%nat)])
-        ++ (if incl_ok c then [] else if incl_known c then [(i, 10%nat)] else [(i, 2%nat)])
+        ++ (if incl_ok c then [] else [(i, 2%nat)])
         ++ check_from (S i) r
   end.
 Definition check_all (cs : list case) : list (nat * nat) := check_from 0 cs.
